@@ -27,6 +27,7 @@ type runCfg struct {
 	maxPaths    int
 	wall        time.Duration
 	debug       bool
+	pathLimit   time.Duration
 	noReplay    bool
 	seed        int64
 }
@@ -50,6 +51,7 @@ func main() {
 	fs.IntVar(&c.maxPaths, "maxpaths", 0, "path budget per harness")
 	fs.DurationVar(&c.wall, "wall", 0, "wall limit per harness")
 	fs.BoolVar(&c.debug, "debug", false, "debug output")
+	fs.DurationVar(&c.pathLimit, "pathlimit", 0, "time limit per path (default 120s quick / 600s thorough)")
 	fs.BoolVar(&c.noReplay, "noreplay", false, "skip native replay")
 	fs.Parse(os.Args[2:])
 	if t := os.Getenv("VERIF_TIER"); t != "" && !flagSet(fs, "tier") {
@@ -62,6 +64,12 @@ func main() {
 		c.timeoutMs = 20000
 		if c.tier == "thorough" {
 			c.timeoutMs = 120000
+		}
+	}
+	if c.pathLimit == 0 {
+		c.pathLimit = 120 * time.Second
+		if c.tier == "thorough" {
+			c.pathLimit = 600 * time.Second
 		}
 	}
 	switch cmd {
@@ -134,7 +142,7 @@ func explore(c *runCfg) (*loaded, map[string][]byte, []*sym.HarnessResult, error
 		hs = f
 	}
 	sh := sym.NewShared(l.prog)
-	opt := sym.Options{Solver: c.solver, TimeoutMs: c.timeoutMs, MaxPaths: c.maxPaths, WallLimit: c.wall, Debug: c.debug}
+	opt := sym.Options{Solver: c.solver, TimeoutMs: c.timeoutMs, MaxPaths: c.maxPaths, WallLimit: c.wall, Debug: c.debug, PathLimit: c.pathLimit}
 	var progress func(*sym.HarnessResult)
 	if c.debug {
 		progress = func(r *sym.HarnessResult) {
